@@ -30,8 +30,10 @@ const DAY: u64 = H24;
 
 // ------------------------------------------------------------------------------------------------ store
 
+/// plain key/value store; `.1` logs every key the contract WROTE (set or removed) since it was last cleared — a write of
+/// identical bytes is invisible to a byte diff, the log makes it visible (see the overwrite probe in `mig`)
 #[derive(Clone, Default)]
-struct MemStore(BTreeMap<Vec<u8>, Vec<u8>>);
+struct MemStore(BTreeMap<Vec<u8>, Vec<u8>>, BTreeSet<Vec<u8>>);
 impl Storage for MemStore {
     fn get(&self, key: &[u8]) -> Option<Vec<u8>> {
         self.0.get(key).cloned()
@@ -52,9 +54,11 @@ impl Storage for MemStore {
         }
     }
     fn set(&mut self, key: &[u8], value: &[u8]) {
+        self.1.insert(key.to_vec());
         self.0.insert(key.to_vec(), value.to_vec());
     }
     fn remove(&mut self, key: &[u8]) {
+        self.1.insert(key.to_vec());
         self.0.remove(key);
     }
 }
@@ -115,10 +119,119 @@ fn contract(key: &str) -> (Class, Target) {
     (c.1, c.2)
 }
 
-/// the names sg721-updatable's `COMPATIBLE_CONTRACT_NAMES_FOR_MIGRATION` lists (read from the source; the monitor's
-/// transcription of "an identity the new code accepts")
+/// Snapshot of what sg721-updatable declares (used as a fall-back and as a cross-check that is only *noted*): the names in
+/// `COMPATIBLE_CONTRACT_NAMES_FOR_MIGRATION`, the inline sg721-base names, `EARLIEST_COMPATIBLE_VERSION`.
 const UPD_ACCEPTED: [&str; 4] = ["sg721-base", "crates.io:sg721-base", "sg721-updatable", "crates.io:sg721-updatable"];
 const UPD_BASE: [&str; 2] = ["sg721-base", "crates.io:sg721-base"];
+const UPD_EARLIEST: &str = "0.16.0";
+
+/// What the code of sg721-updatable DECLARES compatible. The three constants are private, so they are read from the
+/// contract's source (as `world::addr_id` does for sg1): "an identity the new code accepts" / "declares compatible" in the
+/// property are these declarations, not the behaviour of `_migrate` (which is what the monitors judge against them).
+/// A legitimate re-declaration therefore moves monitors and model together; the snapshot is only a noted cross-check.
+#[derive(Clone, Debug)]
+struct UpdDecl {
+    accepted: Vec<String>,
+    base: Vec<String>,
+    earliest: semver::Version,
+    from_source: bool,
+}
+fn quoted(s: &str) -> Vec<String> {
+    let mut out = vec![];
+    let mut it = s.split('"');
+    it.next();
+    while let Some(q) = it.next() {
+        out.push(q.to_string());
+        if it.next().is_none() {
+            break;
+        }
+    }
+    out
+}
+fn upd_decl() -> UpdDecl {
+    let snapshot = UpdDecl {
+        accepted: UPD_ACCEPTED.iter().map(|s| s.to_string()).collect(),
+        base: UPD_BASE.iter().map(|s| s.to_string()).collect(),
+        earliest: semver::Version::parse(UPD_EARLIEST).unwrap(),
+        from_source: false,
+    };
+    let repo = std::env::var("VERIF_REPO").unwrap_or_else(|_| "/repo".into());
+    let Ok(src) = std::fs::read_to_string(format!("{repo}/contracts/collections/sg721-updatable/src/contract.rs")) else { return snapshot };
+    let parse = || -> Option<UpdDecl> {
+        let i = src.find("const EARLIEST_COMPATIBLE_VERSION")?;
+        let stmt = &src[i..i + src[i..].find(';')?];
+        let earliest = semver::Version::parse(quoted(&stmt[stmt.find('=')?..]).first()?).ok()?;
+        let j = src.find("const COMPATIBLE_CONTRACT_NAMES_FOR_MIGRATION")?;
+        let stmt = &src[j..j + src[j..].find("];")?];
+        let accepted = quoted(&stmt[stmt.find('=')?..]);
+        // `if ["sg721-base", "crates.io:sg721-base"].contains(&prev_contract_name.as_str())` inside `_migrate`
+        let m = src.find("fn _migrate")?;
+        let body = &src[m..];
+        let k = body.find("].contains(&prev_contract_name")?;
+        let open = body[..k].rfind('[')?;
+        let base = quoted(&body[open..k]);
+        if accepted.is_empty() {
+            return None;
+        }
+        Some(UpdDecl { accepted, base, earliest, from_source: true })
+    };
+    parse().unwrap_or(snapshot)
+}
+
+/// raw storage keys of the mechanism items, taken from the crates' own typed constants (a renamed key moves with the code)
+macro_rules! item_key {
+    ($e:expr) => {
+        Some($e.as_slice().to_vec())
+    };
+}
+fn typed_key(contract: &str, item: &str) -> Option<Vec<u8>> {
+    let coll = sg721_base::Sg721Contract::<cw721_base::Extension>::default();
+    match (item, contract) {
+        ("cw2", _) => item_key!(cw2::CONTRACT),
+        ("params", "base-factory") => item_key!(base_factory::state::SUDO_PARAMS),
+        ("params", "vending-factory") => item_key!(vending_factory::state::SUDO_PARAMS),
+        ("params", "open-edition-factory") => item_key!(open_edition_factory::state::SUDO_PARAMS),
+        ("params", "token-merge-factory") => item_key!(token_merge_factory::state::SUDO_PARAMS),
+        ("ld", "vending-minter") => item_key!(vending_minter::state::LAST_DISCOUNT_TIME),
+        ("ld", "vending-minter-featured") => item_key!(vending_minter_featured::state::LAST_DISCOUNT_TIME),
+        ("ld", "vending-minter-wl-flex") => item_key!(vending_minter_wl_flex::state::LAST_DISCOUNT_TIME),
+        ("ld", "vending-minter-wl-flex-featured") => item_key!(vending_minter_wl_flex_featured::state::LAST_DISCOUNT_TIME),
+        ("ld", "vending-minter-merkle-wl") => item_key!(vending_minter_merkle_wl::state::LAST_DISCOUNT_TIME),
+        ("ld", "vending-minter-merkle-wl-featured") => item_key!(vending_minter_merkle_wl_featured::state::LAST_DISCOUNT_TIME),
+        ("status", "vending-minter") => item_key!(vending_minter::state::STATUS),
+        ("status", "vending-minter-featured") => item_key!(vending_minter_featured::state::STATUS),
+        ("status", "vending-minter-wl-flex") => item_key!(vending_minter_wl_flex::state::STATUS),
+        ("status", "vending-minter-wl-flex-featured") => item_key!(vending_minter_wl_flex_featured::state::STATUS),
+        ("status", "vending-minter-merkle-wl") => item_key!(vending_minter_merkle_wl::state::STATUS),
+        ("status", "vending-minter-merkle-wl-featured") => item_key!(vending_minter_merkle_wl_featured::state::STATUS),
+        ("status", "open-edition-minter") => item_key!(open_edition_minter::state::STATUS),
+        ("status", "open-edition-minter-wl-flex") => item_key!(open_edition_minter_wl_flex::state::STATUS),
+        ("status", "open-edition-minter-merkle-wl") => item_key!(open_edition_minter_merkle_wl::state::STATUS),
+        ("status", "token-merge-minter") => item_key!(token_merge_minter::state::STATUS),
+        ("admin_list", "whitelist-merkletree") => item_key!(whitelist_mtree::state::ADMIN_LIST),
+        ("admin_list", "tiered-whitelist-merkletree") => item_key!(tiered_whitelist_merkletree::state::ADMIN_LIST),
+        ("fz", c) if c.starts_with("sg721") => item_key!(sg721_updatable::state::FROZEN_TOKEN_METADATA),
+        ("eu", c) if c.starts_with("sg721") => item_key!(sg721_updatable::state::ENABLE_UPDATABLE),
+        ("ru", c) if c.starts_with("sg721") => item_key!(coll.royalty_updated_at),
+        ("fci", c) if c.starts_with("sg721") => item_key!(coll.frozen_collection_info),
+        // no typed constant is exported for these (cw721-base 0.16 `minter`, cw-ownable `ownership`, cw-controllers admin)
+        ("lm", _) => Some(b"minter".to_vec()),
+        ("own", _) => Some(b"ownership".to_vec()),
+        ("admin", "sg-splits") => Some(b"admin".to_vec()),
+        _ => None,
+    }
+}
+/// (model's canonical key name, item) of the eight mechanism items
+const MECH: [(&str, &str); 8] = [
+    ("contract_info", "cw2"),
+    ("last_discount_time", "ld"),
+    ("frozen_token_metadata", "fz"),
+    ("enable_updatable", "eu"),
+    ("royalty_updated_at", "ru"),
+    ("minter", "lm"),
+    ("ownership", "own"),
+    ("sudo-params", "params"),
+];
 
 const GOV: u64 = 90;
 const CREATOR: u64 = 10;
@@ -156,7 +269,20 @@ fn rand_factory_params(w: &World, kind: MinterKind, rng: &mut Rng) -> FactoryPar
     p
 }
 
-fn build(key: &str, rng: &mut Rng) -> Built {
+/// scenario options of a case header: `from=base` (sg721-updatable only: a REAL sg721-base instance is migrated to the
+/// sg721-updatable code — the one legitimate cross-code migration), `ids=a,b,c` (factories: `allowed_sg721_code_ids` exactly as given)
+#[derive(Clone, Default)]
+struct Opts {
+    from_base: bool,
+    ids: Option<Vec<u64>>,
+}
+impl Opts {
+    fn of(header: &str) -> Opts {
+        Opts { from_base: kv(header, "from") == Some("base"), ids: kv_list(header, "ids").map(|v| v.into_iter().map(|x| x as u64).collect()) }
+    }
+}
+
+fn build(key: &str, rng: &mut Rng, opts: &Opts) -> Built {
     let (_class, target) = contract(key);
     let mut w = World::new(GENESIS + 1000);
     match target {
@@ -167,7 +293,10 @@ fn build(key: &str, rng: &mut Rng) -> Built {
                 FactoryKind::OpenEdition => MinterKind::OpenEdition,
                 FactoryKind::TokenMerge => MinterKind::TokenMerge,
             };
-            let p = rand_factory_params(&w, mk, rng);
+            let mut p = rand_factory_params(&w, mk, rng);
+            if let Some(ids) = &opts.ids {
+                p.allowed_sg721_code_ids = ids.clone();
+            }
             let code = w.factory_code(fk);
             let addr = w.instantiate(code, &addr(GOV), &json!({"params": p.to_json(fk)}), &[], Some(&addr(GOV))).expect("factory");
             Built { w, addr, admin: addr_of(GOV), code_id: code, minter: None, minter_kind: None, start: 0 }
@@ -178,7 +307,9 @@ fn build(key: &str, rng: &mut Rng) -> Built {
             Built { w, addr: m.clone(), admin: addr_of(CREATOR), code_id: code, minter: Some(m), minter_kind: Some(kind), start }
         }
         Target::Coll(ck) => {
-            let (m, c, start) = make_minter(&mut w, MinterKind::Vending, ck, rng);
+            // from=base: the instance is a real sg721-base collection, the code migrated to is sg721-updatable's
+            let inst = if opts.from_base && ck == CollKind::Updatable { CollKind::Base } else { ck };
+            let (m, c, start) = make_minter(&mut w, MinterKind::Vending, inst, rng);
             let code = w.coll_code(ck);
             Built { w, addr: c, admin: addr_of(CREATOR), code_id: code, minter: Some(m), minter_kind: Some(MinterKind::Vending), start }
         }
@@ -273,7 +404,9 @@ fn act(b: &mut Built, key: &str, n: u64) -> bool {
             let Some(minter) = b.minter.clone() else { return false };
             let kind = b.minter_kind.unwrap();
             let on_coll = matches!(target, Target::Coll(_));
-            let sel = n % if on_coll { 7 } else { 4 };
+            // 7..9 (collections) and 4..5 (minters) are the STATE-MOVING acts: they leave flags away from the values a
+            // careless migrate would "initialise" them to (freezes, verified/blocked/explicit status, edited token URI)
+            let sel = n % if on_coll { 10 } else { 6 };
             let now = b.w.time();
             let price = |w: &World| -> u128 {
                 w.query(&minter, &json!({"mint_price": {}}))
@@ -282,7 +415,25 @@ fn act(b: &mut Built, key: &str, n: u64) -> bool {
                     .unwrap_or(100_000_000)
             };
             let mint_msg = if kind.is_merkle() { json!({"mint": {"stage": null, "proof_hashes": null, "allocation": null}}) } else { json!({"mint": {}}) };
+            if !on_coll && sel >= 4 {
+                let (a, bl, c) = if sel == 4 { (true, true, true) } else { (true, false, n % 2 == 0) };
+                return b.w.sudo(&minter, &json!({"update_status": {"is_verified": a, "is_blocked": bl, "is_explicit": c}})).is_ok();
+            }
             match sel {
+                7 => {
+                    let coll = b.addr.clone();
+                    b.w.exec(&addr(CREATOR), &coll, &json!({"freeze_token_metadata": {}}), &[]).is_ok()
+                }
+                8 => {
+                    let coll = b.addr.clone();
+                    b.w.exec(&addr(CREATOR), &coll, &json!({"freeze_collection_info": {}}), &[]).is_ok()
+                }
+                9 => {
+                    let coll = b.addr.clone();
+                    let ids = b.w.query(&coll, &json!({"all_tokens": {"start_after": null, "limit": 30}})).ok();
+                    let Some(id) = ids.and_then(|v| v["tokens"].as_array().and_then(|a| a.first().and_then(|x| x.as_str().map(String::from)))) else { return false };
+                    b.w.exec(&addr(CREATOR), &coll, &json!({"update_token_metadata": {"token_id": id, "token_uri": format!("ipfs://moved/{n}")}}), &[]).is_ok()
+                }
                 0 | 4 => {
                     if kind == MinterKind::TokenMerge {
                         return b.w.exec(&addr(CREATOR), &minter, &json!({"update_per_address_limit": {"per_address_limit": 1 + n % 3}}), &[]).is_ok();
@@ -327,7 +478,11 @@ fn act(b: &mut Built, key: &str, n: u64) -> bool {
             }
         }
         Target::Splits => {
-            if n % 2 == 0 {
+            if n % 3 == 2 {
+                // state-moving: the admin is renounced (irreversible)
+                let a = b.addr.clone();
+                b.w.exec(&addr(WLADMIN), &a, &json!({"update_admin": {"admin": null}}), &[]).is_ok()
+            } else if n % 3 == 0 {
                 let a = b.addr.clone();
                 b.w.fund(&a, 0, 1_000_000 + n as u128);
                 b.w.exec(&addr(WLADMIN), &a, &json!({"distribute": {"denom_list": null}}), &[]).is_ok()
@@ -338,15 +493,56 @@ fn act(b: &mut Built, key: &str, n: u64) -> bool {
         }
         Target::Wl(_) => {
             let a = b.addr.clone();
-            b.w.exec(&addr(WLADMIN), &a, &json!({"update_admins": {"admins": [addr(WLADMIN), addr(31 + n % 5)]}}), &[]).is_ok()
+            match n % 4 {
+                // state-moving: the admin list becomes immutable (irreversible)
+                1 => b.w.exec(&addr(WLADMIN), &a, &json!({"freeze": {}}), &[]).is_ok(),
+                2 => {
+                    let t = b.start + 40 * 3_600_000_000_000 + n;
+                    b.w.exec(&addr(WLADMIN), &a, &json!({"update_end_time": t.to_string()}), &[]).is_ok()
+                }
+                _ => b.w.exec(&addr(WLADMIN), &a, &json!({"update_admins": {"admins": [addr(WLADMIN), addr(31 + n % 5)]}}), &[]).is_ok(),
+            }
         }
     }
 }
 
 // ------------------------------------------------------------------------------------------------ observation
 
-fn jget(st: &dyn Storage, key: &str) -> Option<Value> {
-    st.get(key.as_bytes()).and_then(|b| serde_json::from_slice(&b).ok())
+/// raw storage keys of this contract's mechanism items (typed constants where the crates export them)
+#[derive(Clone, Default)]
+struct Keys(BTreeMap<&'static str, Vec<u8>>);
+impl Keys {
+    fn of(contract: &str) -> Keys {
+        let mut m = BTreeMap::new();
+        for (canon, item) in MECH {
+            m.insert(item, typed_key(contract, item).unwrap_or_else(|| canon.as_bytes().to_vec()));
+        }
+        for item in ["status", "admin_list", "fci", "admin"] {
+            if let Some(k) = typed_key(contract, item) {
+                m.insert(item, k);
+            }
+        }
+        Keys(m)
+    }
+    fn k(&self, item: &str) -> &[u8] {
+        self.0.get(item).map(|v| v.as_slice()).unwrap_or(b"\xff<none>")
+    }
+    /// the model's name for a raw key (mechanism items) or a printable rendering of the raw key
+    fn canon(&self, raw: &[u8]) -> String {
+        for (canon, item) in MECH {
+            if self.k(item) == raw {
+                return canon.to_string();
+            }
+        }
+        key_name(raw)
+    }
+}
+
+fn jget(st: &dyn Storage, key: &[u8]) -> Option<Value> {
+    st.get(key).and_then(|b| serde_json::from_slice(&b).ok())
+}
+fn dget(d: &Dump, key: &[u8]) -> Option<Value> {
+    d.get(key).and_then(|b| serde_json::from_slice(b).ok())
 }
 fn tok(s: &str) -> String {
     if s.is_empty() {
@@ -368,13 +564,14 @@ fn jcoin_render(v: &Value) -> String {
     }
     format!("{}:{}", denom_id(v["denom"].as_str().unwrap_or("?")), v["amount"].as_str().unwrap_or("0"))
 }
-fn render_params(v: &Value) -> String {
+/// the 13 governance parameters in the model's order (index = `FParams` field, same table as `suppliedIdx` in Driver/C20.lean)
+fn param_fields(v: &Value) -> Vec<String> {
     // vending / open-edition / base keep governance extras under "extension"; token-merge is flat
     let ext = if v.get("extension").map_or(false, |e| e.is_object()) { &v["extension"] } else { v };
     let u = |x: &Value| x.as_u64().unwrap_or(0).to_string();
     let ids: Vec<String> = v["allowed_sg721_code_ids"].as_array().map(|a| a.iter().map(|x| x.as_u64().unwrap_or(0).to_string()).collect()).unwrap_or_default();
     let dev = ext.get("dev_fee_address").and_then(|d| d.as_str()).map(addr_id).unwrap_or(0);
-    [
+    vec![
         u(&v["code_id"]),
         if ids.is_empty() { "-".to_string() } else { ids.join(",") },
         if v["frozen"].as_bool().unwrap_or(false) { "1".into() } else { "0".into() },
@@ -389,25 +586,44 @@ fn render_params(v: &Value) -> String {
         jcoin_render(ext.get("shuffle_fee").unwrap_or(&Value::Null)),
         dev.to_string(),
     ]
-    .join(";")
+}
+fn render_params(v: &Value, mask: &[usize]) -> String {
+    param_fields(v).into_iter().enumerate().map(|(i, f)| if mask.contains(&i) { "*".to_string() } else { f }).collect::<Vec<_>>().join(";")
+}
+/// indices (into `param_fields`) of the parameters a `mig` line's update message supplies
+const SUPPLY_KEYS: [(&str, usize); 14] = [
+    ("code_id", 0), ("add", 1), ("rm", 1), ("frozen", 2), ("cf", 3), ("mmp", 4), ("bps", 5), ("off", 6), ("mtl", 7), ("mpa", 8), ("ap", 9), ("abps", 10), ("sf", 11), ("dev", 12),
+];
+fn supplied_idx(line: &str) -> Vec<usize> {
+    if kv(line, "msg") != Some("1") {
+        return vec![];
+    }
+    let mut out = vec![];
+    for (k, i) in SUPPLY_KEYS {
+        if opt_tok(line, k).is_some() && !out.contains(&i) {
+            out.push(i);
+        }
+    }
+    out
 }
 
-/// the eight mechanism items, decoded from raw storage
-fn state_fields(st: &dyn Storage) -> String {
-    let cw2 = match jget(st, "contract_info") {
-        Some(v) => format!("cw2n={} cw2v={}", tok(v["contract"].as_str().unwrap_or("?")), tok(v["version"].as_str().unwrap_or("?"))),
-        None => "cw2n=- cw2v=~".into(),
+/// the eight mechanism items, decoded from raw storage; `mask` = parameters printed as `*` (supplied by the message)
+fn state_fields(st: &dyn Storage, keys: &Keys, mask: &[usize]) -> String {
+    let cw2 = match cw2::CONTRACT.may_load(st) {
+        Ok(Some(v)) => format!("cw2n={} cw2v={}", tok(&v.contract), tok(&v.version)),
+        Ok(None) => "cw2n=- cw2v=~".into(),
+        Err(_) => "cw2n=? cw2v=?".into(),
     };
-    let ts = |k: &str| -> String { jget(st, k).and_then(|v| v.as_str().map(|s| s.to_string())).unwrap_or_else(|| "-".into()) };
+    let ts = |k: &str| -> String { jget(st, keys.k(k)).and_then(|v| v.as_str().map(|s| s.to_string())).unwrap_or_else(|| "-".into()) };
     let fl = |k: &str| -> String {
-        match jget(st, k) {
+        match jget(st, keys.k(k)) {
             Some(Value::Bool(true)) => "1".into(),
             Some(Value::Bool(false)) => "0".into(),
             _ => "-".into(),
         }
     };
-    let lm = jget(st, "minter").and_then(|v| v.as_str().map(|s| addr_id(s).to_string())).unwrap_or_else(|| "-".into());
-    let own = match jget(st, "ownership") {
+    let lm = jget(st, keys.k("lm")).and_then(|v| v.as_str().map(|s| addr_id(s).to_string())).unwrap_or_else(|| "-".into());
+    let own = match jget(st, keys.k("own")) {
         Some(v) => format!(
             "{}:{}",
             v["owner"].as_str().map(|s| addr_id(s).to_string()).unwrap_or_else(|| "-".into()),
@@ -415,37 +631,45 @@ fn state_fields(st: &dyn Storage) -> String {
         ),
         None => "-".into(),
     };
-    let params = jget(st, "sudo-params").map(|v| render_params(&v)).unwrap_or_else(|| "-".into());
-    format!(
-        "{cw2} ld={} fz={} eu={} ru={} lm={lm} own={own} params={params}",
-        ts("last_discount_time"),
-        fl("frozen_token_metadata"),
-        fl("enable_updatable"),
-        ts("royalty_updated_at")
-    )
+    let params = jget(st, keys.k("params")).map(|v| render_params(&v, mask)).unwrap_or_else(|| "-".into());
+    format!("{cw2} ld={} fz={} eu={} ru={} lm={lm} own={own} params={params}", ts("ld"), fl("fz"), fl("eu"), ts("ru"))
 }
 
 fn key_name(k: &[u8]) -> String {
-    if !k.is_empty() && k.iter().all(|b| b.is_ascii_graphic() && *b != b',' && *b != b'=') {
+    if !k.is_empty() && k.iter().all(|b| b.is_ascii_graphic() && *b != b',' && *b != b'=' && *b != b'#') {
         String::from_utf8_lossy(k).to_string()
     } else {
         format!("0x{}", hex::encode(k))
     }
 }
 type Dump = BTreeMap<Vec<u8>, Vec<u8>>;
-fn changed(a: &Dump, b: &Dump) -> Vec<String> {
-    let mut ks: BTreeSet<String> = BTreeSet::new();
+fn changed_raw(a: &Dump, b: &Dump) -> Vec<Vec<u8>> {
+    let mut ks: BTreeSet<Vec<u8>> = BTreeSet::new();
     for (k, v) in a {
         if b.get(k) != Some(v) {
-            ks.insert(key_name(k));
+            ks.insert(k.clone());
         }
     }
     for k in b.keys() {
         if !a.contains_key(k) {
-            ks.insert(key_name(k));
+            ks.insert(k.clone());
         }
     }
     ks.into_iter().collect()
+}
+
+/// a neighbouring value of a stored JSON item: every bool flipped, every number (also decimal strings) + 1
+fn perturb(v: &Value) -> Value {
+    match v {
+        Value::Bool(b) => Value::Bool(!b),
+        Value::Number(n) => n.as_u64().map(|x| json!(x.wrapping_add(1))).unwrap_or_else(|| v.clone()),
+        Value::String(s) if !s.is_empty() && s.len() < 30 && s.bytes().all(|c| c.is_ascii_digit()) => {
+            s.parse::<u128>().map(|x| Value::String((x + 1).to_string())).unwrap_or_else(|_| v.clone())
+        }
+        Value::Array(a) => Value::Array(a.iter().map(perturb).collect()),
+        Value::Object(m) => Value::Object(m.iter().map(|(k, x)| (k.clone(), perturb(x))).collect()),
+        _ => v.clone(),
+    }
 }
 
 // ------------------------------------------------------------------------------------------------ the real migrate
@@ -601,6 +825,59 @@ fn queries(target: Target) -> Vec<Value> {
     }
 }
 
+/// Parameterless smart queries enumerated AT RUN TIME from the crate's own `QueryMsg` schema, so that a query added to a
+/// contract later is compared before/after a migration without touching this file (`queries` above supplies the ones that
+/// need arguments).
+fn schema_queries(key: &str) -> Vec<Value> {
+    query_schema(key).1
+}
+/// (every query variant name the contract's `QueryMsg` knows, the parameterless ones as ready-made messages)
+fn query_schema(key: &str) -> (Vec<String>, Vec<Value>) {
+    macro_rules! noarg {
+        ($t:ty) => {{
+            let sch = serde_json::to_value(cosmwasm_schema::schema_for!($t)).unwrap_or(Value::Null);
+            let mut all = vec![];
+            let mut out = vec![];
+            for v in sch["oneOf"].as_array().cloned().unwrap_or_default() {
+                if let Some(names) = v["enum"].as_array() {
+                    for n in names.iter().filter_map(|n| n.as_str()) {
+                        all.push(n.to_string());
+                        out.push(Value::String(n.to_string()));
+                    }
+                }
+                let Some(name) = v["required"].as_array().and_then(|r| r.first()).and_then(|n| n.as_str()) else { continue };
+                all.push(name.to_string());
+                let body = &v["properties"][name];
+                let needs_args = body["required"].as_array().map_or(false, |r| !r.is_empty());
+                if body["type"] == json!("object") && !needs_args {
+                    out.push(json!({ name: {} }));
+                }
+            }
+            (all, out)
+        }};
+    }
+    match key {
+        "base-factory" | "vending-factory" | "open-edition-factory" => noarg!(sg2::query::Sg2QueryMsg),
+        "token-merge-factory" => noarg!(token_merge_factory::msg::QueryMsg),
+        "vending-minter" => noarg!(vending_minter::msg::QueryMsg),
+        "vending-minter-featured" => noarg!(vending_minter_featured::msg::QueryMsg),
+        "vending-minter-wl-flex" => noarg!(vending_minter_wl_flex::msg::QueryMsg),
+        "vending-minter-wl-flex-featured" => noarg!(vending_minter_wl_flex_featured::msg::QueryMsg),
+        "vending-minter-merkle-wl" => noarg!(vending_minter_merkle_wl::msg::QueryMsg),
+        "vending-minter-merkle-wl-featured" => noarg!(vending_minter_merkle_wl_featured::msg::QueryMsg),
+        "open-edition-minter" => noarg!(open_edition_minter::msg::QueryMsg),
+        "open-edition-minter-wl-flex" => noarg!(open_edition_minter_wl_flex::msg::QueryMsg),
+        "open-edition-minter-merkle-wl" => noarg!(open_edition_minter_merkle_wl::msg::QueryMsg),
+        "token-merge-minter" => noarg!(token_merge_minter::msg::QueryMsg),
+        "sg-splits" => noarg!(sg_splits::msg::QueryMsg),
+        "whitelist-merkletree" => noarg!(whitelist_mtree::msg::QueryMsg),
+        "tiered-whitelist-merkletree" => noarg!(tiered_whitelist_merkletree::msg::QueryMsg),
+        "sg721-updatable" => noarg!(sg721_updatable::msg::QueryMsg),
+        "sg721-metadata-onchain" | "sg721-nt" | "sg721-base" => noarg!(sg721_base::msg::QueryMsg),
+        _ => (vec![], vec![]),
+    }
+}
+
 // ------------------------------------------------------------------------------------------------ Sut
 
 #[derive(Clone, Copy, PartialEq, Eq, Debug)]
@@ -618,19 +895,39 @@ struct S {
     b: Option<Built>,
     store: MemStore,
     self_addr: String,
-    /// what the real `instantiate` recorded: the code's own identity, independent of the Lean constants
+    /// what the real `instantiate` of the CODE MIGRATED TO recorded: the code's own identity, independent of the Lean constants
     name0: String,
     ver0: String,
+    keys: Keys,
+    /// what sg721-updatable declares compatible (read from its source)
+    decl: UpdDecl,
+    /// (contract key, name, version) recorded by the real `instantiate` of each of the 21 contracts
+    identities: Vec<(String, String, String)>,
+    /// `strict_ids=1` in the case header: judge the code-id list by the LITERAL clause (see `ids-compacted` below)
+    strict_ids: bool,
+    from_base: bool,
     finding: Option<(String, String)>,
     /// classification of the last `mig` (for the coverage classes)
     pub last_class: String,
     pub act_ok: bool,
     pub q_compared: u64,
     pub q_failed_before: u64,
+    /// coverage classes observed by the monitors (drained into `ses.mark` by `step`)
+    pub marks: Vec<String>,
+    pub notes: BTreeSet<String>,
+    pub probes: u64,
 }
 
 impl S {
     fn new() -> S {
+        let mut identities = vec![];
+        for (key, _, _) in CONTRACTS {
+            let mut r = Rng::new(1);
+            let b = build(key, &mut r, &Opts::default());
+            let st = b.w.app.contract_storage(&Addr::unchecked(&b.addr));
+            let info = cw2::CONTRACT.load(&*st).expect("instantiate records cw2");
+            identities.push((key.to_string(), info.contract, info.version));
+        }
         S {
             key: String::new(),
             class: Class::Plain,
@@ -641,12 +938,24 @@ impl S {
             self_addr: "contract0".into(),
             name0: String::new(),
             ver0: String::new(),
+            keys: Keys::default(),
+            decl: upd_decl(),
+            identities,
+            strict_ids: false,
+            from_base: false,
             finding: None,
             last_class: String::new(),
             act_ok: false,
             q_compared: 0,
             q_failed_before: 0,
+            marks: vec![],
+            notes: BTreeSet::new(),
+            probes: 0,
         }
+    }
+    fn identity(&self, key: &str) -> (String, String) {
+        let i = self.identities.iter().find(|i| i.0 == key).expect("identity");
+        (i.1.clone(), i.2.clone())
     }
     fn dump(&self) -> Dump {
         match self.mode {
@@ -664,16 +973,31 @@ impl S {
             _ => f(&mut self.store),
         }
     }
+    fn fields_masked(&mut self, mask: &[usize]) -> String {
+        let keys = self.keys.clone();
+        self.with_store(|st| state_fields(st, &keys, mask))
+    }
     fn fields(&mut self) -> String {
-        self.with_store(|st| state_fields(st))
+        self.fields_masked(&[])
     }
     fn run_queries(&self) -> Vec<(Value, Option<Value>)> {
         let Some(b) = self.b.as_ref() else { return vec![] };
-        queries(self.target).into_iter().map(|q| { let r = b.w.query(&self.self_addr, &q).ok(); (q, r) }).collect()
+        let mut qs = queries(self.target);
+        let mut extra = schema_queries(&self.key);
+        if self.from_base {
+            extra.extend(schema_queries("sg721-base")); // what the instance could answer BEFORE the cross-code migration
+        }
+        for q in extra {
+            if !qs.contains(&q) {
+                qs.push(q);
+            }
+        }
+        qs.into_iter().map(|q| { let r = b.w.query(&self.self_addr, &q).ok(); (q, r) }).collect()
     }
+    /// the stored identities the code DECLARES it accepts
     fn accepted(&self) -> Vec<String> {
         if self.class == Class::Updatable {
-            UPD_ACCEPTED.iter().map(|s| s.to_string()).collect()
+            self.decl.accepted.clone()
         } else {
             vec![self.name0.clone()]
         }
@@ -700,27 +1024,35 @@ impl Sut for S {
         };
         let seed = kv_u64(header, "seed").unwrap_or(0);
         let mut rng = Rng::new(seed ^ 0xC20);
-        let mut b = build(&key, &mut rng);
+        let opts = Opts::of(header);
+        let mut b = build(&key, &mut rng, &opts);
         for n in kv_list(header, "acts").unwrap_or_default() {
             act(&mut b, &key, n as u64);
         }
         let dump: Dump = b.w.dump(&b.addr).into_iter().collect();
-        let info = dump.get(&b"contract_info"[..]).and_then(|v| serde_json::from_slice::<Value>(v).ok()).expect("instantiate records cw2");
-        self.name0 = info["contract"].as_str().unwrap().to_string();
-        self.ver0 = info["version"].as_str().unwrap().to_string();
+        self.from_base = opts.from_base && class == Class::Updatable;
+        // the identity of the code migrated TO: what its own `instantiate` records (for from=base that is sg721-updatable's,
+        // not what the sg721-base instance recorded)
+        let (n0, v0) = self.identity(&key);
+        self.name0 = n0;
+        self.ver0 = v0;
+        self.strict_ids = kv(header, "strict_ids") == Some("1");
         self.self_addr = b.addr.clone();
+        self.keys = Keys::of(&key);
         self.key = key;
         self.class = class;
         self.target = target;
         self.mode = mode;
         self.finding = None;
         self.store = match mode {
-            Mode::Direct => MemStore(dump),
+            Mode::Direct => MemStore(dump, BTreeSet::new()),
             _ => MemStore::default(),
         };
         self.b = if mode == Mode::App { Some(b) } else { None };
         let f = self.fields();
-        (format!("{header} {f}"), "case".into())
+        let list = |v: &Vec<String>| if v.is_empty() { "-".to_string() } else { v.iter().map(|s| tok(s)).collect::<Vec<_>>().join(",") };
+        let wit = if class == Class::Updatable { format!(" acc={} bn={}", list(&self.decl.accepted), list(&self.decl.base)) } else { String::new() };
+        (format!("{header}{wit} {f}"), "case".into())
     }
 
     fn exec(&mut self, line: &str) -> (String, String) {
@@ -730,22 +1062,18 @@ impl Sut for S {
             "put" => {
                 let k = kv(line, "k").unwrap_or("");
                 let v = kv(line, "v").unwrap_or("-");
-                let (key, val): (&str, Option<Vec<u8>>) = match k {
-                    "ld" => ("last_discount_time", if v == "-" { None } else { Some(format!("\"{v}\"").into_bytes()) }),
-                    "ru" => ("royalty_updated_at", if v == "-" { None } else { Some(format!("\"{v}\"").into_bytes()) }),
-                    "fz" => ("frozen_token_metadata", if v == "-" { None } else { Some(if v == "1" { b"true".to_vec() } else { b"false".to_vec() }) }),
-                    "eu" => ("enable_updatable", if v == "-" { None } else { Some(if v == "1" { b"true".to_vec() } else { b"false".to_vec() }) }),
-                    "lm" => ("minter", if v == "-" { None } else { Some(format!("\"{}\"", addr(v.parse().unwrap_or(0))).into_bytes()) }),
-                    "own" => (
-                        "ownership",
-                        if v == "-" { None } else { Some(serde_json::to_vec(&json!({"owner": addr(v.parse().unwrap_or(0)), "pending_owner": null, "pending_expiry": null})).unwrap()) },
-                    ),
-                    "params" => ("sudo-params", None),
+                let val: Option<Vec<u8>> = match k {
+                    "ld" | "ru" => if v == "-" { None } else { Some(format!("\"{v}\"").into_bytes()) },
+                    "fz" | "eu" => if v == "-" { None } else { Some(if v == "1" { b"true".to_vec() } else { b"false".to_vec() }) },
+                    "lm" => if v == "-" { None } else { Some(format!("\"{}\"", addr(v.parse().unwrap_or(0))).into_bytes()) },
+                    "own" => if v == "-" { None } else { Some(serde_json::to_vec(&json!({"owner": addr(v.parse().unwrap_or(0)), "pending_owner": null, "pending_expiry": null})).unwrap()) },
+                    "params" => None,
                     _ => return (line.to_string(), "bad-op".into()),
                 };
+                let key = self.keys.k(k).to_vec();
                 self.with_store(|st| match val {
-                    Some(bytes) => st.set(key.as_bytes(), &bytes),
-                    None => st.remove(key.as_bytes()),
+                    Some(bytes) => st.set(&key, &bytes),
+                    None => st.remove(&key),
                 });
                 let f = self.fields();
                 (format!("{line} {f}"), "ok".into())
@@ -757,6 +1085,12 @@ impl Sut for S {
                     Some(b) => act(b, &key, n),
                     None => false,
                 };
+                let f = self.fields();
+                (format!("{line} {f}"), "ok".into())
+            }
+            // the model adopts the implementation's mechanism items (after a message-carrying factory migration: the values of
+            // the SUPPLIED parameters are outside C20's projection, see `mig`)
+            "sync" => {
                 let f = self.fields();
                 (format!("{line} {f}"), "ok".into())
             }
@@ -776,7 +1110,7 @@ impl S {
         // optional rewrite of the cw2 record (environment action)
         match kv(line, "name") {
             None | Some("*") => {}
-            Some("-") => self.with_store(|st| st.remove(b"contract_info")),
+            Some("-") => self.with_store(|st| cw2::CONTRACT.remove(st)),
             Some(n) => {
                 let name = untok(n);
                 let ver = untok(kv(line, "ver").unwrap_or("~"));
@@ -785,11 +1119,14 @@ impl S {
         }
         let msg = migrate_msg(self.class, line);
         let has_msg = !msg.is_null() && matches!(self.class, Class::Factory(_));
+        let mask = supplied_idx(line);
+        let keys = self.keys.clone();
         let before = self.dump();
-        let pre = before.get(&b"contract_info"[..]).and_then(|v| serde_json::from_slice::<Value>(v).ok());
-        let pre_name = pre.as_ref().and_then(|v| v["contract"].as_str().map(String::from));
-        let pre_ver = pre.as_ref().and_then(|v| v["version"].as_str().map(String::from));
+        let pre = before.get(keys.k("cw2")).and_then(|v| serde_json::from_slice::<cw2::ContractVersion>(v).ok());
+        let pre_name = pre.as_ref().map(|v| v.contract.clone());
+        let pre_ver = pre.as_ref().map(|v| v.version.clone());
 
+        let mut written: BTreeSet<Vec<u8>> = BTreeSet::new();
         let (ok, q_before, q_after): (bool, Vec<(Value, Option<Value>)>, Vec<(Value, Option<Value>)>) = match self.mode {
             Mode::App => {
                 self.b.as_mut().unwrap().w.set_time(t);
@@ -803,20 +1140,27 @@ impl S {
                 let snapshot = self.store.clone();
                 let key = self.key.clone();
                 let sa = self.self_addr.clone();
+                self.store.1.clear();
                 let st = &mut self.store;
                 let r = catch(|| direct_migrate(&key, st, t, &sa, &msg));
                 let ok = matches!(r, Ok(Ok(())));
                 if !ok {
                     self.store = snapshot; // a failed or aborted execution is rolled back by the chain
+                } else {
+                    written = std::mem::take(&mut self.store.1);
                 }
                 (ok, vec![], vec![])
             }
         };
         let after = self.dump();
-        let ch = changed(&before, &after);
+        let ch_raw = changed_raw(&before, &after);
+        let mut ch: Vec<String> = ch_raw.iter().map(|k| keys.canon(k)).collect();
+        ch.sort();
         let out = if ok {
-            let f = self.fields();
-            format!("ok {f} ch={}", if ch.is_empty() { "-".to_string() } else { ch.join(",") })
+            // PROJECTION: primary = mechanism items with the SUPPLIED parameters masked + changed keys; behind ` ## `: all parameters
+            let f = self.fields_masked(&mask);
+            let full = after.get(keys.k("params")).and_then(|b| serde_json::from_slice::<Value>(b).ok()).map(|v| render_params(&v, &[])).unwrap_or_else(|| "-".into());
+            format!("ok {f} ch={} ## params={full}", if ch.is_empty() { "-".to_string() } else { ch.join(",") })
         } else {
             "err".to_string()
         };
@@ -829,9 +1173,10 @@ impl S {
         let name_ok = pre_name.as_ref().map_or(false, |n| accepted.contains(n));
         let v = |a: u64, b: u64, cc: u64| semver::Version::new(a, b, cc);
         let mut bad: Option<(String, String)> = None;
+        let outcome = if ok { "ok" } else { "err" };
         let mut flag = |p: &str, w: String| {
             if bad.is_none() {
-                bad = Some((format!("{c}/migrate/{p}"), format!("{w}; op `{line}` stored=({:?},{:?}) code=({},{}) => {}", pre_name, pre_ver, self.name0, self.ver0, out.split_whitespace().next().unwrap_or(""))));
+                bad = Some((format!("{c}/migrate/{p}"), format!("{w}; op `{line}` stored=({:?},{:?}) code=({},{}) => {outcome}", pre_name, pre_ver, self.name0, self.ver0)));
             }
         };
         // coverage class
@@ -839,7 +1184,7 @@ impl S {
             None => "unparsable",
             Some(s) if *s > code => "newer",
             Some(s) if *s == code => "equal",
-            Some(s) if *s < v(0, 16, 0) => "lt-0.16.0",
+            Some(s) if *s < self.decl.earliest => "lt-earliest",
             Some(s) if *s < v(3, 0, 0) => "lt-3.0.0",
             Some(s) if *s < v(3, 1, 0) => "lt-3.1.0",
             Some(s) if *s < v(3, 9, 0) => "lt-3.9.0",
@@ -853,7 +1198,11 @@ impl S {
             Some(_) => "garbage",
         };
         let tclass = if t < H12 { "t<12h" } else if t < H24 { "t<24h" } else { "t-real" };
-        self.last_class = format!("{}/{:?}/{nclass}/{vclass}/{}{}/{}", self.key, self.mode, if has_msg { "msg/" } else { "" }, tclass, if ok { "ok" } else { "err" });
+        self.last_class = format!("{}/{:?}/{nclass}/{vclass}/{}{}/{}", self.key, self.mode, if has_msg { "msg/" } else { "" }, tclass, outcome);
+        let mut marks: Vec<String> = vec![];
+        let mut notes: Vec<String> = vec![];
+        let mut probes = 0u64;
+        let from_base = pre_name.as_deref().map_or(false, |n| self.decl.base.iter().any(|b| b == n));
 
         if self.class.in_scope() {
             if ok {
@@ -868,21 +1217,28 @@ impl S {
                 } else if stored.as_ref().unwrap() > &code {
                     flag("downgrade-accepted", "stored version is newer than the code's version, yet the migration succeeded".into());
                 }
+                // "never cross contract types": a DECLARED-compatible name that is the recorded identity of another kind of
+                // contract of this workspace (anything but the sg721-base / sg721-updatable family and the code's own name)
+                if let Some(n) = &pre_name {
+                    let family = UPD_ACCEPTED.contains(&n.as_str()) || *n == self.name0;
+                    if name_ok && !family && self.identities.iter().any(|i| i.1 == *n && i.0 != self.key) {
+                        flag("cross-type-accepted", format!("the code declares the identity `{n}` of another contract type compatible and migrated it"));
+                    }
+                }
                 // recorded version afterwards
-                let post = after.get(&b"contract_info"[..]).and_then(|v| serde_json::from_slice::<Value>(v).ok());
+                let post = after.get(keys.k("cw2")).and_then(|v| serde_json::from_slice::<cw2::ContractVersion>(v).ok());
                 if matches!(self.class, Class::Factory(_)) {
-                    if after.get(&b"contract_info"[..]) != before.get(&b"contract_info"[..]) {
+                    if after.get(keys.k("cw2")) != before.get(keys.k("cw2")) {
                         flag("factory-touched-cw2", "a factory migration changed the recorded identity/version".into());
                     }
                 } else {
-                    let good = post.as_ref().map_or(false, |p| p["contract"].as_str() == Some(&self.name0) && p["version"].as_str() == Some(&self.ver0));
+                    let good = post.as_ref().map_or(false, |p| p.contract == self.name0 && p.version == self.ver0);
                     if !good {
                         flag("version-after", format!("after a successful migration the record is {:?}, not the code's", post));
                     }
                 }
                 // frame: which raw keys may differ
                 if let Some(s) = &stored {
-                    let pn = pre_name.clone().unwrap_or_default();
                     let mut allowed: Vec<&str> = vec![];
                     match self.class {
                         Class::Factory(_) => {
@@ -899,7 +1255,7 @@ impl S {
                         }
                         Class::Updatable => {
                             allowed.push("contract_info");
-                            if UPD_BASE.contains(&pn.as_str()) {
+                            if from_base {
                                 allowed.push("frozen_token_metadata");
                                 allowed.push("enable_updatable");
                             }
@@ -918,21 +1274,47 @@ impl S {
                             flag(&format!("frame/{k}"), format!("storage key `{k}` changed; only {:?} may change here", allowed));
                         }
                     }
+                    // OVERWRITE PROBE (direct mode): a key the migrate WROTE without changing its bytes, outside the allowed set.
+                    // Harmless if it wrote back what it read; a violation if it wrote a constant ("reset to the instantiate
+                    // default" is invisible to a byte diff while the state holds the default). Decide by running the same
+                    // migration on the neighbouring state in which only that item differs.
+                    for k in &written {
+                        let name = keys.canon(k);
+                        if allowed.contains(&name.as_str()) || ch.contains(&name) {
+                            continue;
+                        }
+                        let Some(cur) = dget(&before, k) else { continue };
+                        let alt = perturb(&cur);
+                        if alt == cur {
+                            continue;
+                        }
+                        probes += 1;
+                        let mut st2 = MemStore(before.clone(), BTreeSet::new());
+                        st2.0.insert(k.clone(), serde_json::to_vec(&alt).unwrap());
+                        let (key2, sa2, msg2) = (self.key.clone(), self.self_addr.clone(), msg.clone());
+                        let r = catch(|| direct_migrate(&key2, &mut st2, t, &sa2, &msg2));
+                        if matches!(r, Ok(Ok(()))) {
+                            let now = dget(&st2.0, k);
+                            if now.as_ref() != Some(&alt) {
+                                flag(&format!("frame/{name}"), format!("the migration overwrites `{name}` with a value that does not depend on the stored one: with `{name}` = {alt} before (everything else as in this case) it is {:?} afterwards; only {:?} may change here", now, allowed));
+                            }
+                        }
+                    }
                     // the documented one-time initialisations have the documented values
-                    let get = |k: &str| after.get(k.as_bytes()).and_then(|b| serde_json::from_slice::<Value>(b).ok());
-                    if self.class == Class::Vending && ch.iter().any(|k| k == "last_discount_time") && get("last_discount_time") != Some(json!((t - H12).to_string())) {
+                    let get = |item: &str| dget(&after, keys.k(item));
+                    if self.class == Class::Vending && ch.iter().any(|k| k == "last_discount_time") && get("ld") != Some(json!((t - H12).to_string())) {
                         flag("discount-anchor", "last_discount_time is not (block time - 12 h)".into());
                     }
                     if self.class == Class::Updatable {
-                        if ch.iter().any(|k| k == "royalty_updated_at") && get("royalty_updated_at") != Some(json!((t - H24).to_string())) {
+                        if ch.iter().any(|k| k == "royalty_updated_at") && get("ru") != Some(json!((t - H24).to_string())) {
                             flag("royalty-timestamp", "royalty_updated_at is not (block time - 24 h)".into());
                         }
-                        if UPD_BASE.contains(&pn.as_str()) && (get("frozen_token_metadata") != Some(json!(false)) || get("enable_updatable") != Some(json!(false))) {
+                        if from_base && (get("fz") != Some(json!(false)) || get("eu") != Some(json!(false))) {
                             flag("updatable-flags", "flags not initialised to false when coming from sg721-base".into());
                         }
                         if *s < v(3, 0, 0) {
-                            let lm = before.get(&b"minter"[..]).and_then(|b| serde_json::from_slice::<Value>(b).ok());
-                            let ow = get("ownership").map(|o| o["owner"].clone());
+                            let lm = dget(&before, keys.k("lm"));
+                            let ow = get("own").map(|o| o["owner"].clone());
                             if lm.is_none() || ow != lm {
                                 flag("minter-preserved", format!("legacy minter {:?} did not become the owner {:?}", lm, ow));
                             }
@@ -940,14 +1322,53 @@ impl S {
                     }
                     // never decreases
                     if !matches!(self.class, Class::Factory(_)) {
-                        if let Some(pv) = post.as_ref().and_then(|p| p["version"].as_str()).and_then(plain_semver) {
+                        if let Some(pv) = post.as_ref().and_then(|p| plain_semver(&p.version)) {
                             if pv < *s {
                                 flag("version-decreased", format!("recorded version went from {s} to {pv}"));
                             }
                         }
                     }
+                    // ---- coverage: the state was AWAY from the values a careless migrate would reset it to
+                    let how = if *s == code { "same" } else { "upgrade" };
+                    let side = if from_base { "base-name" } else { "own-name" };
+                    let truthy = |item: &str| dget(&before, keys.k(item)) == Some(json!(true));
+                    if self.class == Class::Updatable {
+                        if truthy("fz") {
+                            marks.push(format!("nondefault:frozen_token_metadata/{how}/{side}/{:?}", self.mode));
+                        }
+                        if truthy("eu") {
+                            marks.push(format!("nondefault:enable_updatable/{how}/{side}/{:?}", self.mode));
+                        }
+                        if truthy("fci") {
+                            marks.push(format!("nondefault:frozen_collection_info/{how}/{:?}", self.mode));
+                        }
+                        if *s >= v(3, 1, 0) && dget(&before, keys.k("ru")).is_some() {
+                            marks.push(format!("nondefault:royalty_updated_at-kept/{how}"));
+                        }
+                    }
+                    if let Some(stt) = dget(&before, keys.k("status")) {
+                        if stt.as_object().map_or(false, |o| o.values().any(|x| x == &json!(true))) {
+                            marks.push(format!("nondefault:status/{how}/{:?}", self.mode));
+                        }
+                    }
+                    if self.class == Class::Vending && *s >= v(3, 9, 0) && dget(&before, keys.k("ld")).is_some() {
+                        marks.push(format!("nondefault:last_discount_time-kept/{how}"));
+                    }
+                    if matches!(self.class, Class::Factory(_)) && dget(&before, keys.k("params")).map_or(false, |p| p["frozen"] == json!(true)) {
+                        marks.push(format!("nondefault:factory-frozen/{}/{:?}", if has_msg { "msg" } else { "nomsg" }, self.mode));
+                    }
+                    if dget(&before, keys.k("admin_list")).map_or(false, |a| a["mutable"] == json!(false)) {
+                        marks.push(format!("nondefault:wl-admins-frozen/{how}/{:?}", self.mode));
+                    }
+                    if self.key == "sg-splits" && dget(&before, keys.k("admin")) == Some(Value::Null) {
+                        marks.push(format!("nondefault:splits-admin-renounced/{how}/{:?}", self.mode));
+                    }
+                    if self.from_base {
+                        marks.push(format!("xcode:base->updatable/{:?}/{vclass}/ok", self.mode));
+                    }
                 }
                 // every value that could be queried before is unchanged
+                let ids_supplied = mask.contains(&1);
                 for ((q, rb), (_, ra)) in q_before.iter().zip(q_after.iter()) {
                     let Some(rb) = rb else {
                         self.q_failed_before += 1;
@@ -955,24 +1376,38 @@ impl S {
                     };
                     self.q_compared += 1;
                     let qn = q.as_object().and_then(|o| o.keys().next().cloned()).unwrap_or_default();
-                    if has_msg && (qn == "params" || qn.starts_with("allowed_collection_code_id")) {
-                        continue; // parameters explicitly supplied with a factory migration (checked field-wise below)
+                    if has_msg && qn == "params" {
+                        continue; // judged parameter by parameter from the stored record below (supplied ones are exempt)
                     }
-                    let from_base = pre_name.as_deref().map_or(false, |n| UPD_BASE.contains(&n));
+                    if has_msg && qn.starts_with("allowed_collection_code_id") {
+                        if ids_supplied {
+                            continue; // code ids explicitly supplied with the migration
+                        }
+                        if qn == "allowed_collection_code_ids" && ra.as_ref() != Some(rb) {
+                            continue; // the list itself is judged below (`params/…allowed_sg721_code_ids`, exact-compaction rule)
+                        }
+                    }
                     if self.class == Class::Updatable && from_base && (qn == "enable_updatable" || qn == "freeze_token_metadata") {
                         continue; // documented one-time initialisation
+                    }
+                    if ra.is_none() && self.from_base && !query_schema(&self.key).0.contains(&qn) {
+                        // cross-code: the code migrated to has no such query at all (its QueryMsg schema lacks the variant). An
+                        // interface difference between two contracts, not a changed value: observed and noted, not judged.
+                        marks.push(format!("xcode:query-not-in-target/{qn}"));
+                        notes.push(format!("sg721-base -> sg721-updatable: the query `{qn}` exists in sg721-base but not in sg721-updatable; after the migration it can no longer be asked (answer before: {rb})"));
+                        continue;
                     }
                     if ra.as_ref() != Some(rb) {
                         flag(&format!("query/{qn}"), format!("query {q} answered {rb} before and {:?} after", ra));
                     }
                 }
-                if has_msg && self.mode == Mode::App {
-                    // a parameter for which nothing was supplied keeps its value (code ids: as a set)
-                    let pb = q_before.iter().find(|(q, _)| q.get("params").is_some()).and_then(|(_, r)| r.clone());
-                    let pa = q_after.iter().find(|(q, _)| q.get("params").is_some()).and_then(|(_, r)| r.clone());
+                if has_msg {
+                    // a parameter for which nothing was supplied keeps its value — judged on the STORED record, in every mode
+                    let pb = dget(&before, keys.k("params"));
+                    let pa = dget(&after, keys.k("params"));
                     if let (Some(pb), Some(pa)) = (pb, pa) {
-                        let fb = flatten(&pb["params"]);
-                        let fa = flatten(&pa["params"]);
+                        let fb = flatten(&pb);
+                        let fa = flatten(&pa);
                         let supplied = supplied_fields(&msg);
                         for (k, vb) in &fb {
                             let va = fa.get(k);
@@ -980,12 +1415,23 @@ impl S {
                                 continue;
                             }
                             if k.ends_with("allowed_sg721_code_ids") {
-                                let set = |x: &Value| -> BTreeSet<u64> { x.as_array().map(|a| a.iter().filter_map(|y| y.as_u64()).collect()).unwrap_or_default() };
-                                if va.map(set) == Some(set(vb)) {
+                                // Code ids are compared as LISTS. The one deviation of the unchanged code: `update_params` runs
+                                // `Vec::dedup` on every message, so a stored list with adjacent repeats is compacted although no ids
+                                // were supplied. Exactly that (after == dedup(before)) is tolerated in generated runs and reported
+                                // under its own key when the case header asks for the literal clause (`strict_ids=1`).
+                                let list = |x: &Value| -> Vec<u64> { x.as_array().map(|a| a.iter().filter_map(|y| y.as_u64()).collect()).unwrap_or_default() };
+                                let mut compact = list(vb);
+                                compact.dedup();
+                                if va.map(list) == Some(compact) {
+                                    marks.push(format!("observed:ids-compacted/{}/{:?}", self.key, self.mode));
+                                    notes.push(format!("{}: a migration whose message supplied no code ids compacted the stored allowed_sg721_code_ids {vb} to {} (Vec::dedup in update_params; C20_factory_unsupplied_ids_counterexample)", self.key, va.unwrap()));
+                                    if self.strict_ids {
+                                        flag("params/allowed_sg721_code_ids-compacted", format!("no code ids were supplied with the migration, yet the stored allowed_sg721_code_ids went from {vb} to {}", va.unwrap()));
+                                    }
                                     continue;
                                 }
                             }
-                            flag(&format!("params/{k}"), format!("parameter `{k}` was not supplied but changed from {vb} to {:?}", va));
+                            flag(&format!("params/{}", k.trim_start_matches('.')), format!("parameter `{k}` was not supplied but changed from {vb} to {:?}", va));
                         }
                     }
                 }
@@ -998,15 +1444,17 @@ impl S {
                 if let (true, Some(s)) = (name_ok, &stored) {
                     let pn = pre_name.clone().unwrap_or_default();
                     let compatible = match self.class {
-                        Class::Factory(_) => *s <= code && (!has_msg || (before.contains_key(&b"sudo-params"[..]) && coins_native(self.class, &msg))),
+                        Class::Factory(_) => *s <= code && (!has_msg || (before.contains_key(keys.k("params")) && coins_native(self.class, &msg))),
                         Class::Plain => *s <= code,
                         Class::Vending => *s <= code && (*s == code || *s >= v(3, 9, 0) || t >= H12),
                         Class::Updatable => {
+                            // `decl.earliest` / `accepted` are what the code DECLARES (read from its source); 3.0.0 / 3.1.0 / 24 h belong
+                            // to the documented one-time upgrades (no legacy minter item, or a block time before 1970-01-02: aborts)
                             *s <= code
-                                && *s >= v(0, 16, 0)
+                                && *s >= self.decl.earliest
                                 && !(*s == code && pn == self.name0)
                                 && (*s >= v(3, 1, 0) || t >= H24)
-                                && (*s >= v(3, 0, 0) || before.contains_key(&b"minter"[..]))
+                                && (*s >= v(3, 0, 0) || before.contains_key(keys.k("lm")))
                         }
                         _ => false,
                     };
@@ -1014,9 +1462,15 @@ impl S {
                         flag("compatible-refused", "accepted identity, stored version not newer and declared compatible, yet the migration was refused".into());
                     }
                 }
+                if self.from_base {
+                    marks.push(format!("xcode:base->updatable/{:?}/{vclass}/err", self.mode));
+                }
             }
         }
         self.finding = bad;
+        self.marks.extend(marks);
+        self.notes.extend(notes);
+        self.probes += probes;
         (line.to_string(), out)
     }
 }
@@ -1189,23 +1643,94 @@ fn rand_msg(rng: &mut Rng, class: Class) -> String {
     s
 }
 
+/// `ses.step` + drain the coverage classes / notes the monitors observed
+fn step(ses: &mut Session, sut: &mut S, line: &str) -> String {
+    let r = ses.step(sut, line);
+    for m in std::mem::take(&mut sut.marks) {
+        ses.mark(m);
+    }
+    r
+}
+/// a `mig` step; an accepted message-carrying factory migration is followed by `sync` (see the projection note in `mig`)
+fn mig_step(ses: &mut Session, sut: &mut S, line: &str) -> String {
+    let r = step(ses, sut, line);
+    if r.starts_with("ok") && kv(line, "msg") == Some("1") && matches!(sut.class, Class::Factory(_)) {
+        step(ses, sut, "sync");
+    }
+    r
+}
+/// a version strictly below `v` (and at or above every threshold the migrations mention, when `v` is)
+fn older_than(v: &str) -> String {
+    let p = plain_semver(v).expect("code version");
+    if p.patch > 0 {
+        format!("{}.{}.{}", p.major, p.minor, p.patch - 1)
+    } else if p.minor > 0 {
+        format!("{}.{}.99", p.major, p.minor - 1)
+    } else {
+        format!("{}.99.99", p.major.saturating_sub(1))
+    }
+}
+
 fn main() {
     let mut ses = Session::new("C20");
     let mut sut = S::new();
     if ses.maybe_replay(&mut sut) {
+        for n in std::mem::take(&mut sut.notes) {
+            ses.note(n);
+        }
         ses.finish(&mut sut);
     }
     let thorough = ses.tier() != Tier::Quick;
 
+    // ---- coverage floor: without these the run would be vacuous in exactly the respects the round-3 review found blind
+    for r in [
+        // a successful version-raising migration of each class, from a state AWAY from the values a reset would write
+        "nondefault:frozen_token_metadata/upgrade/own-name/Direct",
+        "nondefault:frozen_token_metadata/upgrade/own-name/App",
+        "nondefault:frozen_token_metadata/upgrade/base-name",
+        "nondefault:enable_updatable/upgrade/own-name/App",
+        "nondefault:frozen_collection_info/upgrade/Direct",
+        "nondefault:frozen_collection_info/upgrade/App",
+        "nondefault:status/upgrade/Direct",
+        "nondefault:status/upgrade/App",
+        "nondefault:last_discount_time-kept/upgrade",
+        "nondefault:royalty_updated_at-kept/upgrade",
+        "nondefault:factory-frozen/nomsg",
+        "nondefault:factory-frozen/msg",
+        "nondefault:wl-admins-frozen/upgrade",
+        "nondefault:splits-admin-renounced/upgrade",
+        // the one legitimate cross-code migration: a real sg721-base instance to the sg721-updatable code
+        "xcode:base->updatable/App/equal/ok",
+        "xcode:base->updatable/Direct/equal/ok",
+        "xcode:base->updatable/App/lt-3.0.0/ok",
+        // the dedup deviation is exercised (and agrees with the model) on every factory
+        "corpus:ids-compacted:base-factory:ok",
+        "corpus:ids-compacted:vending-factory:ok",
+        "corpus:ids-compacted:open-edition-factory:ok",
+        "corpus:ids-compacted:token-merge-factory:ok",
+        "observed:ids-compacted/",
+        // accept at the boundary and refuse one step beyond it, per class
+        "sg721-updatable/Direct/own/equal/t-real/err",
+        "sg721-updatable/Direct/compatible/equal/t-real/ok",
+        "sg721-updatable/Direct/compatible/lt-earliest/t-real/err",
+        "sg721-updatable/Direct/compatible/lt-3.0.0/t-real/ok",
+    ] {
+        ses.require(r);
+    }
+    for key in ["base-factory", "vending-factory", "open-edition-factory", "token-merge-factory", "vending-minter", "vending-minter-wl-flex", "vending-minter-merkle-wl",
+                "open-edition-minter", "token-merge-minter", "sg-splits", "whitelist-merkletree", "tiered-whitelist-merkletree", "sg721-updatable"] {
+        for c in ["own/newer/t-real/err", "own/older/t-real/ok", "sibling/older/t-real/err", "own/unparsable/"] {
+            ses.require(format!("{key}/Direct/{c}"));
+        }
+        if key != "sg721-updatable" {
+            ses.require(format!("{key}/Direct/own/equal/t-real/ok"));
+        }
+    }
+
     // the identities the real contracts record at instantiate (for the sibling-name dimension)
     let mut names: Vec<String> = vec![];
-    for (key, _, _) in CONTRACTS {
-        let mut r = Rng::new(1);
-        let b = build(key, &mut r);
-        let d: Dump = b.w.dump(&b.addr).into_iter().collect();
-        let info: Value = serde_json::from_slice(d.get(&b"contract_info"[..]).expect("cw2")).unwrap();
-        let n = info["contract"].as_str().unwrap().to_string();
-        ses.note(format!("{key}: instantiate records ({n}, {})", info["version"].as_str().unwrap()));
+    for (key, n, ver) in sut.identities.clone() {
+        ses.note(format!("{key}: instantiate records ({n}, {ver})"));
         if !names.contains(&n) {
             names.push(n);
         }
@@ -1216,28 +1741,147 @@ fn main() {
         }
     }
     ses.note("version strings with pre-release / build metadata are not generated (outside the model; the repo never stores them)");
+    let decl = sut.decl.clone();
+    ses.note(format!(
+        "sg721-updatable declares (read from {}): compatible names {:?}, flag-initialising names {:?}, earliest {}{}",
+        if decl.from_source { "its source" } else { "the SNAPSHOT in c20.rs — source not parsable" },
+        decl.accepted, decl.base, decl.earliest,
+        if decl.accepted.iter().map(|s| s.as_str()).collect::<Vec<_>>() != UPD_ACCEPTED.to_vec() || decl.base.iter().map(|s| s.as_str()).collect::<Vec<_>>() != UPD_BASE.to_vec() || decl.earliest.to_string() != UPD_EARLIEST
+            { " — DIFFERS from the snapshot (a re-declaration of compatibility; monitors and model follow it)" } else { "" }
+    ));
+    ses.note("the code version is fixed at the workspace version in every executed case: monotonicity over VARYING code versions (C20_monotone) is proved, not exercised");
+    let upd_accepted: Vec<String> = decl.accepted.clone();
+    let upd_base: Vec<String> = decl.base.clone();
 
     let grid = grid_versions();
     let reduced = reduced_versions();
     let t_real = GENESIS + 500 * DAY;
+
+    // ---------------------------------------------------------------------------- 0. corpus: the dedup deviation, all factories
+    // (generated run: tolerated + marked; `strict_ids=1` — corpus/C20/ids-compacted-without-ids.json — raises the monitor key)
+    for (key, class, _) in CONTRACTS.iter() {
+        if !matches!(class, Class::Factory(_)) {
+            continue;
+        }
+        for mode in ["app", "direct"] {
+            ses.begin_case(&mut sut, &format!("case corpus-ids c={key} mode={mode} seed=1 acts=- ids=5,5,7,7,7,9,5"));
+            // a message in which every field is absent: nothing is supplied
+            let r = mig_step(&mut ses, &mut sut, &format!("mig t={t_real} name=* ver=~ msg=1"));
+            ses.mark(format!("corpus:ids-compacted:{key}:{}", r.split_whitespace().next().unwrap_or("?")));
+            // at most once: the second message-less update leaves the list alone (C20_factory_ids_compaction_once)
+            mig_step(&mut ses, &mut sut, &format!("mig t={} name=* ver=~ msg=1 frozen=1", t_real + 1));
+            // and without a message nothing at all changes, adjacent repeats or not
+            ses.end_case();
+            ses.begin_case(&mut sut, &format!("case corpus-ids-nomsg c={key} mode={mode} seed=1 acts=- ids=5,5,7,7,7,9,5"));
+            step(&mut ses, &mut sut, &format!("mig t={t_real} name=* ver=~ msg=0"));
+            let l = format!("mig t={t_real} name={} ver={} msg=0", tok(&sut.name0), older_than(&sut.ver0));
+            step(&mut ses, &mut sut, &l);
+            ses.end_case();
+        }
+    }
+
+    // ---------------------------------------------------------------------------- 0b. moved states (every seed): each class is
+    // migrated — version-raising, then again — from a state in which the flags a careless migrate would "initialise" are NOT at
+    // their instantiate values
+    for (key, class, target) in CONTRACTS.iter() {
+        let acts: &str = match target {
+            Target::Factory(_) => "3,6",              // sudo update_params: 3 and 6 set frozen=true
+            Target::Minter(_) => "0,2,4",             // mint, discount / mint_to, sudo update_status(true,true,true)
+            Target::Coll(_) => "0,6,9,7,8",           // mint, royalty change, edit a token URI, freeze token metadata, freeze collection info
+            Target::Splits => "0,2",                  // distribute, renounce the admin
+            Target::Wl(_) => "0,1",                   // update admins, freeze the admin list
+        };
+        for mode in ["direct", "app"] {
+            if *class == Class::Base721 && mode == "app" {
+                continue;
+            }
+            let seed = ses.rng.below(100_000);
+            ses.begin_case(&mut sut, &format!("case moved c={key} mode={mode} seed={seed} acts={acts}"));
+            let own = sut.name0.clone();
+            let old = older_than(&sut.ver0);
+            let msg = if matches!(class, Class::Factory(_)) { "msg=1 off=777" } else { "msg=0" };
+            mig_step(&mut ses, &mut sut, &format!("mig t={t_real} name={} ver={old} msg=0", tok(&own)));
+            ses.mark(format!("moved/{}", sut.last_class));
+            ses.mark(sut.last_class.clone());
+            mig_step(&mut ses, &mut sut, &format!("mig t={} name=* ver=~ {msg}", t_real + 1));
+            ses.mark(format!("moved/again/{}", sut.last_class));
+            // the accept/refuse boundary of this class, at a realistic block time, from the moved state (every seed)
+            let v0 = sut.ver0.clone();
+            let newer = { let p = plain_semver(&v0).unwrap(); format!("{}.{}.{}", p.major, p.minor, p.patch + 1) };
+            let sibling = names.iter().find(|n| !sut.accepted().contains(n) && n.starts_with("crates.io:")).cloned().unwrap_or_else(|| "crates.io:other".into());
+            for (n, ver) in [(&own, &v0), (&own, &newer), (&sibling, &old), (&own, &"3.9".to_string()), (&own, &old)] {
+                mig_step(&mut ses, &mut sut, &format!("mig t={} name={} ver={ver} msg=0", t_real + 5, tok(n)));
+                ses.mark(sut.last_class.clone());
+            }
+            if *class == Class::Updatable {
+                // the same frozen collection, recorded under an sg721-base name: the documented initialisation resets the flags
+                let bn = upd_base.first().cloned().unwrap_or_else(|| "sg721-base".into());
+                step(&mut ses, &mut sut, "put k=fz v=1");
+                step(&mut ses, &mut sut, "put k=eu v=1");
+                mig_step(&mut ses, &mut sut, &format!("mig t={} name={} ver={old} msg=0", t_real + 2, tok(&bn)));
+                ses.mark(format!("moved/base/{}", sut.last_class));
+                // and under its own name again, flags set by hand this time
+                step(&mut ses, &mut sut, "put k=fz v=1");
+                step(&mut ses, &mut sut, "put k=eu v=0");
+                mig_step(&mut ses, &mut sut, &format!("mig t={} name={} ver={old} msg=0", t_real + 3, tok(&own)));
+                ses.mark(format!("moved/own2/{}", sut.last_class));
+                // declared-compatible foreign name: at the code's version (accepted), below the declared earliest (refused),
+                // below 3.0.0 with the legacy minter item it then has (accepted)
+                let below = older_than(&decl.earliest.to_string());
+                step(&mut ses, &mut sut, "put k=lm v=1001");
+                for ver in [v0.clone(), below, "2.99.99".to_string()] {
+                    mig_step(&mut ses, &mut sut, &format!("mig t={} name={} ver={ver} msg=0", t_real + 6, tok(&bn)));
+                    ses.mark(sut.last_class.clone());
+                }
+            }
+            ses.end_case();
+        }
+    }
+
+    // ---------------------------------------------------------------------------- 0c. cross-code: a REAL sg721-base instance
+    // migrated to the sg721-updatable code (queries before are answered by sg721-base, after by sg721-updatable)
+    let n_x = ses.scale(6, 60);
+    for i in 0..n_x {
+        for mode in ["app", "direct"] {
+            let acts = match i % 3 {
+                0 => "-".to_string(),
+                1 => "0,6".to_string(),
+                _ => format!("0,{},8", ses.rng.below(7)),
+            };
+            let seed = ses.rng.below(100_000);
+            ses.begin_case(&mut sut, &format!("case xcode c=sg721-updatable mode={mode} from=base seed={seed} acts={acts}"));
+            let t = t_real + i;
+            match i % 3 {
+                0 | 1 => {
+                    // the record as sg721-base wrote it (its own name, the workspace version): accepted — same version, other name
+                    mig_step(&mut ses, &mut sut, &format!("mig t={t} name=* ver=~ msg=0"));
+                    ses.mark(format!("xcode/{}", sut.last_class));
+                    // now it IS an sg721-updatable at the code's version: refused
+                    mig_step(&mut ses, &mut sut, &format!("mig t={} name=* ver=~ msg=0", t + 1));
+                    ses.mark(format!("xcode/again/{}", sut.last_class));
+                }
+                _ => {
+                    // an old sg721-base (pre-3.0.0 layout: cw721 0.16 `minter` item, no cw-ownable record, no royalty timestamp)
+                    let minter = sut.b.as_ref().and_then(|b| b.minter.clone()).map(|m| addr_id(&m)).unwrap_or(1001);
+                    step(&mut ses, &mut sut, &format!("put k=lm v={minter}"));
+                    step(&mut ses, &mut sut, "put k=own v=-");
+                    step(&mut ses, &mut sut, "put k=ru v=-");
+                    let bn = ses.rng.pick(&upd_base).clone();
+                    let ver = ses.rng.pick(&["2.99.99", "0.16.0", "2.4.0", "1.0.0"]).to_string();
+                    mig_step(&mut ses, &mut sut, &format!("mig t={t} name={} ver={ver} msg=0", tok(&bn)));
+                    ses.mark(format!("xcode/{}", sut.last_class));
+                }
+            }
+            ses.end_case();
+        }
+    }
 
     // ---------------------------------------------------------------------------- 1. the version grid × names, route (i)
     let reps = if thorough { 2 } else { 1 }; // thorough: two independent state variants per (contract, name)
     for rep in 0..reps {
     for (ci, (key, class, _)) in CONTRACTS.iter().enumerate() {
         let ci = ci + 7 * rep;
-        let own: Vec<String> = {
-            let mut r = Rng::new(1);
-            let b = build(key, &mut r);
-            let d: Dump = b.w.dump(&b.addr).into_iter().collect();
-            let info: Value = serde_json::from_slice(d.get(&b"contract_info"[..]).unwrap()).unwrap();
-            let n0 = info["contract"].as_str().unwrap().to_string();
-            if *class == Class::Updatable {
-                UPD_ACCEPTED.iter().map(|s| s.to_string()).collect()
-            } else {
-                vec![n0]
-            }
-        };
+        let own: Vec<String> = if *class == Class::Updatable { upd_accepted.clone() } else { vec![sut.identity(key).0] };
         let mut name_list: Vec<(String, bool)> = own.iter().map(|n| (n.clone(), true)).collect();
         let mut others: Vec<String> = names.iter().filter(|n| !own.contains(n)).cloned().collect();
         let garbage: Vec<String> = GARBAGE_NAMES.iter().map(|s| s.to_string()).collect();
@@ -1258,40 +1902,46 @@ fn main() {
         for (ni, (name, full)) in name_list.iter().enumerate() {
             let acts = match ses.rng.below(3) {
                 0 => "-".to_string(),
-                1 => format!("{}", ses.rng.below(8)),
-                _ => format!("{},{}", ses.rng.below(8), ses.rng.below(8)),
+                1 => format!("{}", ses.rng.below(12)),
+                _ => format!("{},{}", ses.rng.below(12), ses.rng.below(12)),
             };
             let header = format!("case grid c={key} mode=direct seed={} acts={acts}", ses.rng.below(1000));
             ses.begin_case(&mut sut, &header);
             // older collections / minters: the items later versions added are absent
             if *class == Class::Vending && ses.rng.chance(2, 3) {
-                ses.step(&mut sut, "put k=ld v=-");
+                step(&mut ses, &mut sut, "put k=ld v=-");
             }
             if matches!(class, Class::Updatable | Class::MetaOnchain | Class::Nt | Class::Base721) && ses.rng.chance(2, 3) {
-                { let l = format!("put k=lm v={}", 1000 + ses.rng.range(1, 9)); ses.step(&mut sut, &l); }
+                { let l = format!("put k=lm v={}", 1000 + ses.rng.range(1, 9)); step(&mut ses, &mut sut, &l); }
                 if ses.rng.chance(3, 4) {
-                    ses.step(&mut sut, "put k=own v=-");
+                    step(&mut ses, &mut sut, "put k=own v=-");
                 }
             }
             let vs = if *full { &grid } else { &reduced };
             for (vi, ver) in vs.iter().enumerate() {
                 let t = if (vi + ni + ci) % 11 == 0 { rand_time(&mut ses.rng) } else { t_real + vi as u64 };
                 let msg = if (vi + ni) % 5 == 0 { rand_msg(&mut ses.rng, *class) } else { "msg=0".into() };
-                // a base-named record normally has no updatable flags yet
-                if *class == Class::Updatable && UPD_BASE.contains(&name.as_str()) && vi % 97 == 0 {
-                    ses.step(&mut sut, "put k=fz v=-");
-                    ses.step(&mut sut, "put k=eu v=-");
+                if *class == Class::Updatable && vi % 97 == 0 {
+                    if upd_base.contains(name) && vi % 2 == 0 {
+                        // a base-named record normally has no updatable flags yet
+                        step(&mut ses, &mut sut, "put k=fz v=-");
+                        step(&mut ses, &mut sut, "put k=eu v=-");
+                    } else {
+                        // flags AWAY from what the initialisation writes: kept under an updatable name, reset under a base name
+                        { let l = format!("put k=fz v={}", ses.rng.below(2)); step(&mut ses, &mut sut, &l); }
+                        { let l = format!("put k=eu v={}", ses.rng.below(2)); step(&mut ses, &mut sut, &l); }
+                    }
                 }
                 if matches!(class, Class::Updatable | Class::MetaOnchain | Class::Nt | Class::Base721) && vi % 13 == 5 {
                     // restore the legacy `minter` item the previous successful pre-3.0.0 migration consumed
-                    { let l = format!("put k=lm v={}", 1000 + ses.rng.range(1, 9)); ses.step(&mut sut, &l); }
+                    { let l = format!("put k=lm v={}", 1000 + ses.rng.range(1, 9)); step(&mut ses, &mut sut, &l); }
                 }
-                ses.step(&mut sut, &format!("mig t={t} name={} ver={ver} {msg}", tok(name)));
+                mig_step(&mut ses, &mut sut, &format!("mig t={t} name={} ver={ver} {msg}", tok(name)));
                 let cl = sut.last_class.clone();
                 ses.mark(cl);
                 if (vi + ci) % 17 == 3 {
                     // history: the same code migrates again without anybody touching the record
-                    ses.step(&mut sut, &format!("mig t={} name=* ver=~ msg=0", t + 1));
+                    mig_step(&mut ses, &mut sut, &format!("mig t={} name=* ver=~ msg=0", t + 1));
                     ses.mark(format!("again/{}", sut.last_class));
                 }
             }
@@ -1305,21 +1955,21 @@ fn main() {
         for mode in ["direct", "bare"] {
             let header = format!("case garbage c={key} mode={mode} seed={} acts=-", ses.rng.below(1000));
             ses.begin_case(&mut sut, &header);
-            let own = if *class == Class::Updatable && ses.rng.chance(1, 2) { ses.rng.pick(&UPD_ACCEPTED).to_string() } else { sut.name0.clone() };
-            ses.step(&mut sut, &format!("mig t={t_real} name=- ver=~ msg=0"));
+            let own = if *class == Class::Updatable && ses.rng.chance(1, 2) { ses.rng.pick(&upd_accepted).to_string() } else { sut.name0.clone() };
+            step(&mut ses, &mut sut, &format!("mig t={t_real} name=- ver=~ msg=0"));
             ses.mark(sut.last_class.clone());
             for g in GARBAGE_VERSIONS {
                 let msg = if ses.rng.chance(1, 6) { rand_msg(&mut ses.rng, *class) } else { "msg=0".into() };
-                { let l = format!("mig t={} name={} ver={g} {msg}", rand_time(&mut ses.rng), tok(&own)); ses.step(&mut sut, &l); }
+                { let l = format!("mig t={} name={} ver={g} {msg}", rand_time(&mut ses.rng), tok(&own)); mig_step(&mut ses, &mut sut, &l); }
                 ses.mark(sut.last_class.clone());
             }
             // bare store: factories have no params to update, old collections no legacy minter
             for ver in ["0.15.99", "0.16.0", "2.99.99", "3.0.0", "3.0.99", "3.1.0", "3.8.99", "3.9.0", "3.15.99", "3.16.0", "3.16.1"] {
                 let msg = if ses.rng.chance(1, 2) { rand_msg(&mut ses.rng, *class) } else { "msg=0".into() };
-                { let l = format!("mig t={} name={} ver={ver} {msg}", rand_time(&mut ses.rng), tok(&own)); ses.step(&mut sut, &l); }
+                { let l = format!("mig t={} name={} ver={ver} {msg}", rand_time(&mut ses.rng), tok(&own)); mig_step(&mut ses, &mut sut, &l); }
                 ses.mark(sut.last_class.clone());
                 if ses.rng.chance(1, 3) {
-                    { let l = format!("put k=lm v={}", 1000 + ses.rng.range(1, 9)); ses.step(&mut sut, &l); }
+                    { let l = format!("put k=lm v={}", 1000 + ses.rng.range(1, 9)); step(&mut ses, &mut sut, &l); }
                 }
             }
             ses.end_case();
@@ -1333,16 +1983,17 @@ fn main() {
             continue; // a method, not an entry point: nothing to call through the App
         }
         for _ in 0..n_app {
-            let nacts = ses.rng.below(3);
-            let acts: Vec<String> = (0..nacts).map(|_| ses.rng.below(8).to_string()).collect();
+            let nacts = ses.rng.below(4);
+            let acts: Vec<String> = (0..nacts).map(|_| ses.rng.below(12).to_string()).collect();
             let header = format!("case app c={key} mode=app seed={} acts={}", ses.rng.below(100_000), if acts.is_empty() { "-".into() } else { acts.join(",") });
             ses.begin_case(&mut sut, &header);
             let accepted = sut.accepted();
             let nops = ses.rng.range(3, 9);
+            // ghost: the highest version an accepted non-factory migration recorded in this case (own bookkeeping, for histories)
             for _ in 0..nops {
                 let r = ses.rng.below(10);
                 if r < 2 {
-                    { let l = format!("act n={}", ses.rng.below(40)); ses.step(&mut sut, &l); }
+                    { let l = format!("act n={}", ses.rng.below(40)); step(&mut ses, &mut sut, &l); }
                     ses.count(if sut.act_ok { "act:succeeded" } else { "act:failed" });
                     continue;
                 }
@@ -1365,28 +2016,28 @@ fn main() {
                 if !keep {
                     let old = |a, b, c| pv.as_ref().map_or(false, |p| *p < semver::Version::new(a, b, c));
                     if *class == Class::Vending && old(3, 9, 0) && ses.rng.chance(3, 4) {
-                        ses.step(&mut sut, "put k=ld v=-");
+                        step(&mut ses, &mut sut, "put k=ld v=-");
                     }
                     if matches!(class, Class::Updatable | Class::MetaOnchain | Class::Nt) {
-                        if UPD_BASE.contains(&name.as_str()) && ses.rng.chance(3, 4) {
-                            ses.step(&mut sut, "put k=fz v=-");
-                            ses.step(&mut sut, "put k=eu v=-");
+                        if upd_base.contains(&name) && ses.rng.chance(3, 4) {
+                            step(&mut ses, &mut sut, "put k=fz v=-");
+                            step(&mut ses, &mut sut, "put k=eu v=-");
                         }
                         if old(3, 0, 0) && ses.rng.chance(5, 6) {
                             // a pre-3.0.0 collection keeps its minter in the cw721 0.16 `minter` item and has no cw-ownable record
                             let minter = sut.b.as_ref().and_then(|b| b.minter.clone()).map(|m| addr_id(&m)).unwrap_or(1001);
-                            ses.step(&mut sut, &format!("put k=lm v={minter}"));
-                            ses.step(&mut sut, "put k=own v=-");
+                            step(&mut ses, &mut sut, &format!("put k=lm v={minter}"));
+                            step(&mut ses, &mut sut, "put k=own v=-");
                         }
                         if old(3, 1, 0) && ses.rng.chance(1, 2) {
-                            ses.step(&mut sut, "put k=ru v=-");
+                            step(&mut ses, &mut sut, "put k=ru v=-");
                         }
                     }
                 }
                 let t = rand_time(&mut ses.rng);
                 let msg = if ses.rng.chance(1, 2) { rand_msg(&mut ses.rng, *class) } else { "msg=0".into() };
                 let line = if keep { format!("mig t={t} name=* ver=~ {msg}") } else { format!("mig t={t} name={} ver={} {msg}", tok(&name), ver) };
-                ses.step(&mut sut, &line);
+                mig_step(&mut ses, &mut sut, &line);
                 ses.mark(sut.last_class.clone());
             }
             ses.end_case();
@@ -1405,13 +2056,17 @@ fn main() {
             for t in [0u64, 1, H12 - 1, H12, H12 + 1, H24 - 1, H24, H24 + 1, u64::MAX] {
                 if *class != Class::Vending {
                     let l = format!("put k=lm v={}", 1000 + ses.rng.range(1, 9));
-                    ses.step(&mut sut, &l);
+                    step(&mut ses, &mut sut, &l);
                 }
                 if *class == Class::Vending && ses.rng.chance(1, 2) {
-                    ses.step(&mut sut, "put k=ld v=-");
+                    step(&mut ses, &mut sut, "put k=ld v=-");
                 }
-                let name = if *class == Class::Updatable { ses.rng.pick(&UPD_ACCEPTED).to_string() } else { own.clone() };
-                ses.step(&mut sut, &format!("mig t={t} name={name} ver={ver} msg=0"));
+                if *class == Class::Updatable && ses.rng.chance(1, 3) {
+                    { let l = format!("put k=fz v={}", ses.rng.below(2)); step(&mut ses, &mut sut, &l); }
+                    { let l = format!("put k=eu v={}", ses.rng.below(2)); step(&mut ses, &mut sut, &l); }
+                }
+                let name = if *class == Class::Updatable { ses.rng.pick(&upd_accepted).to_string() } else { own.clone() };
+                step(&mut ses, &mut sut, &format!("mig t={t} name={name} ver={ver} msg=0"));
                 ses.mark(format!("boundary/{}", sut.last_class));
             }
         }
@@ -1419,6 +2074,10 @@ fn main() {
     }
 
     ses.note(format!("in-App migrations: {} smart-query answers compared before/after, {} queries skipped because they already failed before", sut.q_compared, sut.q_failed_before));
+    ses.note(format!("overwrite probes (a key written with identical bytes outside the allowed set, re-run on the neighbouring state): {}", sut.probes));
+    for n in std::mem::take(&mut sut.notes).into_iter().take(12) {
+        ses.note(n);
+    }
     if std::env::var("C20_DEBUG").is_ok() {
         for c in &ses.classes {
             eprintln!("CLASS {c}");
